@@ -20,7 +20,12 @@ fn spec_peer(s: &str) -> Option<schema::kademlia::Peer> {
     use crate::verif::c19::spec;
     let f: Vec<&str> = s.split('/').collect();
     let [id, addrs, conn] = f.as_slice() else { return None };
-    Some(schema::kademlia::Peer { id: spec::b(id)?, addrs: spec::lb(addrs)?, connection: spec::int(conn)? })
+    Some(schema::kademlia::Peer {
+        id: spec::b(id)?,
+        addrs: spec::lb(addrs)?,
+        connection: spec::int(conn)?,
+        ..Default::default()
+    })
 }
 
 fn spec_record(s: &str) -> Option<Option<schema::kademlia::Record>> {
@@ -36,6 +41,7 @@ fn spec_record(s: &str) -> Option<Option<schema::kademlia::Record>> {
         time_received: spec::st(tr)?,
         publisher: spec::b(publisher)?,
         ttl: ttl.parse().ok()?,
+        ..Default::default()
     }))
 }
 
@@ -51,6 +57,7 @@ pub(crate) fn encpb(t: &[&str]) -> Option<String> {
         record: spec_record(rec)?,
         closer_peers: spec::list(closer, spec_peer)?,
         provider_peers: spec::list(prov, spec_peer)?,
+        ..Default::default()
     };
     let bytes = m.encode_to_vec();
     Some(format!("ok {} ==> {}", hexd(&bytes), pb(&bytes)))
